@@ -92,4 +92,97 @@ example : partB 3 { required := [2], ignored := [], unassigned := [0, 1], locked
 example : tourB [1, 3, 1] [0, 2, 0] { acts := [(0, none), (1, some 1), (2, none), (1, some 0), (1, some 2)], jobSet := [2, 0, 1], jobCount := 3 } = true := by decide
 example : tourB [1, 2, 1] [0, 1, 0] { acts := [(1, some 1), (1, some 0)], jobSet := [1], jobCount := 1 } = false := by decide
 
+/-! ## pinned jobs: a strict block survives every insertion the locking rule admits and every removal of another job -/
+
+theorem isInfix_iff (xs l : List Nat) : isInfix xs l = true ↔ ∃ a b, l = a ++ xs ++ b := by
+  induction l with
+  | nil =>
+    simp only [isInfix, List.isEmpty_iff]
+    constructor
+    · intro h; subst h; exact ⟨[], [], rfl⟩
+    · rintro ⟨a, b, h⟩
+      have : (a ++ xs ++ b).length = 0 := by rw [← h]; rfl
+      simp only [List.length_append] at this
+      exact List.eq_nil_of_length_eq_zero (by omega)
+  | cons y ys ih =>
+    simp only [isInfix, Bool.or_eq_true, List.isPrefixOf_iff_prefix]
+    constructor
+    · rintro (h | h)
+      · obtain ⟨t, ht⟩ := h
+        exact ⟨[], t, by simpa using ht.symm⟩
+      · obtain ⟨a, b, hab⟩ := ih.mp h
+        exact ⟨y :: a, b, by simp [hab]⟩
+    · rintro ⟨a, b, h⟩
+      cases a with
+      | nil => left; exact ⟨b, by simpa using h.symm⟩
+      | cons a0 as =>
+        right
+        simp only [List.cons_append, List.cons.injEq] at h
+        exact ih.mpr ⟨as, b, h.2⟩
+
+/-- removal of a job that is not pinned keeps the block -/
+theorem strict_block_survives_removal (js pre post : List Nat) (y : Nat) (hy : y ∉ js) :
+    isInfix js ((pre ++ js ++ post).filter (· != y)) = true := by
+  rw [isInfix_iff]
+  refine ⟨pre.filter (· != y), post.filter (· != y), ?_⟩
+  have : js.filter (· != y) = js := by
+    apply List.filter_eq_self.mpr
+    intro a ha
+    simp only [bne_iff_ne, ne_eq]
+    intro e; subst e; exact hy ha
+  simp [List.filter_append, this]
+
+/-- **the locking rule keeps a strict block contiguous**: if the tour's job sequence is `pre ++ js ++ post` (the
+    pinned jobs occurring nowhere else), `x` is not pinned, and `Rule::can_insert` admits `x` between the activities
+    around index `i` - whatever the position kind -, then the block is still contiguous after the insertion -/
+theorem strict_block_survives_insert (pos : LockPos) (js pre post : List Nat) (x i : Nat)
+    (hx : x ∉ js)
+    (hc : canInsert pos js (some x) (prevAt (pre ++ js ++ post) i) (nextAt (pre ++ js ++ post) i) = true) :
+    isInfix js (insertJob (pre ++ js ++ post) i x) = true := by
+  rw [isInfix_iff]
+  by_cases h1 : i ≤ pre.length
+  · refine ⟨pre.take i ++ x :: pre.drop i, post, ?_⟩
+    unfold insertJob
+    rw [List.append_assoc pre js post, List.take_append_of_le_length h1, List.drop_append_of_le_length h1]
+    simp
+  · by_cases h2 : pre.length + js.length ≤ i
+    · refine ⟨pre, post.take (i - (pre ++ js).length) ++ x :: post.drop (i - (pre ++ js).length), ?_⟩
+      unfold insertJob
+      have hl : (pre ++ js).length ≤ i := by simpa using h2
+      rw [List.take_append, List.drop_append,
+          List.take_of_length_le hl, List.drop_of_length_le hl]
+      simp
+    · -- strictly inside the block: both neighbours are pinned, which the rule refuses
+      exfalso
+      have hi0 : i ≠ 0 := by omega
+      have hprev : prevAt (pre ++ js ++ post) i = js[i - 1 - pre.length]? := by
+        unfold prevAt
+        simp only [hi0, if_false]
+        rw [List.append_assoc, List.getElem?_append_right (by omega), List.getElem?_append_left (by omega)]
+      have hnext : nextAt (pre ++ js ++ post) i = js[i - pre.length]? := by
+        unfold nextAt
+        rw [List.append_assoc, List.getElem?_append_right (by omega), List.getElem?_append_left (by omega)]
+      have hp : ∃ p, js[i - 1 - pre.length]? = some p ∧ p ∈ js := by
+        have hlt : i - 1 - pre.length < js.length := by omega
+        exact ⟨js[i - 1 - pre.length], List.getElem?_eq_getElem hlt, List.getElem_mem hlt⟩
+      have hn : ∃ n, js[i - pre.length]? = some n ∧ n ∈ js := by
+        have hlt : i - pre.length < js.length := by omega
+        exact ⟨js[i - pre.length], List.getElem?_eq_getElem hlt, List.getElem_mem hlt⟩
+      obtain ⟨p, hpe, hpm⟩ := hp
+      obtain ⟨n, hne, hnm⟩ := hn
+      rw [hprev, hnext, hpe, hne] at hc
+      have hxr : inRule js (some x) = false := by simp [inRule, hx]
+      have ha : canAfter js (some p) (some n) = false := by simp [canAfter, hnm]
+      have hb : canBefore js (some p) (some n) = false := by simp [canBefore, hpm]
+      cases pos <;> simp [canInsert, hxr, ha, hb] at hc
+
+/-! non-vacuity: the rule admits insertions around the block and refuses the one inside it -/
+example : canInsert .any [5, 6] (some 9) (prevAt ([1] ++ [5, 6] ++ [2]) 1) (nextAt ([1] ++ [5, 6] ++ [2]) 1) = true := by decide
+example : canInsert .any [5, 6] (some 9) (prevAt ([1] ++ [5, 6] ++ [2]) 2) (nextAt ([1] ++ [5, 6] ++ [2]) 2) = false := by decide
+example : canInsert .departure [5, 6] (some 9) (prevAt ([] ++ [5, 6] ++ [2]) 0) (nextAt ([] ++ [5, 6] ++ [2]) 0) = false := by decide
+example : isInfix [5, 6] (insertJob ([1] ++ [5, 6] ++ [2]) 3 9) = true := by decide
+example : pinTourB ⟨[0], "strict", [5, 6]⟩ 0 [1, 5, 9, 6] = false := by decide
+example : pinTourB ⟨[0], "sequence", [5, 6]⟩ 0 [1, 5, 9, 6] = true := by decide
+example : pinTourB ⟨[0], "any", [5, 6]⟩ 1 [6] = false := by decide
+
 end C04
